@@ -105,7 +105,7 @@ let () =
           spec = (match va.spec, vb.spec with Some m, _ -> Some ("first number: " ^ m) | _, Some m -> Some ("second number: " ^ m) | _ -> None);
           known = None }
       with Exhausted | Failure _ -> { model = []; tags = []; spec = Some "malformed observation"; known = None }))
-    ["C01"; "C02"]
+    ["C01"; "C02"; "C03"]
 
 let () =
   List.iter (fun prop ->
